@@ -537,6 +537,7 @@ Proof.
   destruct (is_ident_start_ok (c :: r)) as [ids Eids]. rewrite Eids. cbn [bind].
   destruct ids.
   { apply is_ident_start_true_progress in Eids.
+    unfold lex_ident_like.
     destruct (consume_ident_ok f (c :: r)) as (value & r1 & E); [exact Hf|].
     rewrite E. cbn [bind]. apply (consume_ident_progress _ _ _ _ _ Eids) in E as [P1 _].
     destruct r1 as [|c1 r2].
@@ -554,7 +555,7 @@ Proof.
   destruct (try_consume_number_ok f p (c :: r) Hf) as (num & En & Pn). rewrite En. cbn [bind].
   destruct num as [[t r']|].
   { eexists; split; [reflexivity|split; [discriminate|]]. cbn [lexed_rest]. eapply Pn; reflexivity. }
-  clear En Pn.
+  clear En Pn. unfold lex1_punct.
   destruct (c =? 64).
   { destruct (is_ident_start_guard_ok r) as [b Eb]. rewrite Eb. cbn [bind]. destruct b.
     - destruct (consume_ident_ok f r Hfr) as (v & r' & E). rewrite E. cbn [bind].
